@@ -359,4 +359,29 @@ def r7_checks_precede_optimiser(ctx):
     ctx.check(ok, init.qual + "#check-before-slice", "check_fit_ranges dominates the slicing of the targets" if ok else "targets can be sliced without the range check", where=init, node=sl[0] if sl else init.node)
 
 
-RULES = [r1_extent_check, r2_upper_bound, r3_same_range_both_sides, r4_accumulation_and_pairing, r5_weights_reach_function, r6_builtins_use_inputs, r7_checks_precede_optimiser]
+FORMULAS = {
+    "sum_of_abs_residuals": ["float(np.nansum(np.abs(weighting * (target - simulated))))", "float(np.nansum(np.abs(weighting * (simulated - target))))", "float(np.nansum(weighting * np.abs(target - simulated)))", "float(np.nansum(weighting * np.abs(simulated - target)))"],
+    "sum_of_squared_residuals": ["float(np.nansum(weighting * (target - simulated) ** 2))"],
+    "reduced_chi_squared": [
+        "float(np.nansum(np.square((target - simulated) / weighting))) / (np.isfinite(target - simulated).sum() - free_parameters)",
+        "float(np.nansum(np.square((simulated - target) / weighting))) / (np.isfinite(simulated - target).sum() - free_parameters)",
+    ],
+}
+
+
+def r8_builtin_formulas(ctx):
+    """Each built-in figure of merit equals its documented formula as a polynomial identity in (simulated, target, weighting): sum |w (t - s)|, sum w (t - s)^2, sum ((t - s)/w)^2 / (N_finite - free_parameters). Helper functions are inlined and algebraic rearrangements are accepted; a different power of the weighting is not."""
+    from sa.symexec import SymExec
+
+    sx = SymExec(ctx)
+    for name, forms in FORMULAS.items():
+        f = ctx.func(f"pyxel.calibration.fitness:{name}")
+        got = sx.function(f, {})
+        if got is None:
+            raise AnalysisError(f"{f.qual}: body outside the straight-line evaluator")
+        wants = [sx.expr(f, ast.parse(src, mode="eval").body, {}) for src in forms]
+        ok = any(got == w for w in wants)
+        ctx.check(ok, f.qual + "#formula", f"= {forms[0]}" if ok else f"evaluates to {got!r}, which is not the documented {forms[0]}", where=f, node=[r for r in returns_of(f)][0], facts={"normal_form": repr(got)[:300]})
+
+
+RULES = [r8_builtin_formulas, r1_extent_check, r2_upper_bound, r3_same_range_both_sides, r4_accumulation_and_pairing, r5_weights_reach_function, r6_builtins_use_inputs, r7_checks_precede_optimiser]
